@@ -62,7 +62,7 @@ RULE = ("tangle layer (Model/Tng.v against the real yui-link Path and v2 TngComp
         "terms per factor (coarsenings of the same layer, other genus / dots, coefficients -2..2) multiplied and part_eval'ed "
         "(LC / MUL / LPE / LINV), compared as sets of terms with canonically oriented keys; 1/12 malformed (a component "
         "dropped, layers swapped: not stackable, release build goes on or panics - P in both). "
-        "Tangle complex (Model/TngComplex.v against the real TngComplex<i64> driven through its public API): tc = scripts over "
+        "Tangle complex (Model/TngComplex.v against the real TngComplex<i64> driven through its public API): tc / tm = scripts over "
         "two complex registers: init(h, t, deg_shift, base_pt) with h, t in -2..3 (half of them 0, 0), 1/3 reduced (base point = "
         "a label of the diagram); the crossings of a random diagram with <= 5 (quick) / 6 (thorough) crossings (table knots, "
         "braid closures, kinks, split unions, 1/6 truncated to an open tangle; 1/8 of the crossings already resolved) are "
@@ -78,7 +78,10 @@ RULE = ("tangle layer (Model/Tng.v against the real yui-link Path and v2 TngComp
         "base_pt, nverts, is_completely_delooped, whether validate() returns, rank(i) over h_range, and every vertex (key = "
         "state bits / label, sorted) with its RAW tangle, its in-edges and its out-edges with all LcCob terms (coefficient, "
         "canonically oriented cobordism with genus and dots, degree), sorted; at the end edge(k, l).eval(h, t) of every edge "
-        "(EV) and the differential of convert_edges(id).into_raw_complex() on every generator (RAW). "
+        "(EV) and the differential of convert_edges(id).into_raw_complex() on every generator (RAW); on every completely "
+        "delooped complex d d = 0 is computed from the public API (sum over m of (edge(m,y) * edge(x,m)).part_eval) on both "
+        "sides (dd=). Reduced scripts use t = 0 (KhComplex::new asserts it). A tc script is rejected unless validate() "
+        "returned after every step and no dd=0 occurred; tm = the malformed scripts (no such requirement). "
         "non-trivial = some printed component has >= 3 labels; distinct = distinct case lines")
 
 MARKERS = ("FAIL", "?connected", "?partial_cmp", "?ctor", "?dots", "BAD-", "P-CASE", "circ=P", "?mul", "DRIVER-EXN")
